@@ -102,6 +102,24 @@ pub fn run(o: &Opts) -> Report {
             }
         }
     }
+    // `arg_required_else_help`: an option given without a value is an argument all the same
+    {
+        use crate::pcorr::*;
+        let mk = || { let mut c = CmdS { name: "prog".into(), ..Default::default() };
+            c.settings.arg_required_else_help = true;
+            c.args.push(ArgS { id: "color".into(), long: Some("color".into()), action: Some("set"), num_vals: Some((0, Some(1))), ..Default::default() });
+            c.args.push(ArgS { id: "include".into(), long: Some("include".into()), short: Some('I'), action: Some("append"), num_vals: Some((0, None)), ..Default::default() });
+            c.args.push(ArgS { id: "quiet".into(), short: Some('q'), action: Some("setTrue"), ..Default::default() }); c };
+        let cases: Vec<(CmdS, Vec<Vec<u8>>, Expect)> = vec![
+            (mk(), bv(&["prog", "--color"]), Box::new(|m| want_source(m, "color", Some(clap::parser::ValueSource::CommandLine)))),
+            (mk(), bv(&["prog", "--include"]), Box::new(|m| want_source(m, "include", Some(clap::parser::ValueSource::CommandLine)))),
+            (mk(), bv(&["prog", "-I", "--color"]), Box::new(|m| want_source(m, "include", Some(clap::parser::ValueSource::CommandLine)))),
+            (mk(), bv(&["prog", "-q"]), Box::new(|m| want_source(m, "quiet", Some(clap::parser::ValueSource::CommandLine)))),
+        ];
+        run_expect(&mut rep, o, "fault-free-line-rejected", cases);
+        let (canon, _, _) = real_parse(&mk(), &bv(&["prog"]));
+        if canon != "ERR DisplayHelpOnMissingArgumentOrSubcommand" { rep.oracle_fail("wrong-error-kind", &parse_request(&mk(), &bv(&["prog"])), &format!("empty command line under arg_required_else_help: {canon}")); }
+    }
     // required positionals that are all excused: by a present arg that conflicts with each of them, or by an exclusive one
     for k in 0..(if o.thorough() { 400 } else { 60 }) {
         let npos = 2 + k % 2;
